@@ -85,9 +85,33 @@ func genUVRand(gen *vlib.G) {
 		}
 		for _, p := range sp.grid(gen.Thorough()) {
 			p := p
+			if !gen.Thorough() && !quickLocScale(sp, p) {
+				continue
+			}
 			gen.Case(pkey(sp, p), func(t *vlib.T) { checkUVRand(t, sp, p, kRej) })
 		}
 	}
+}
+
+// quickLocScale prunes the uv-rand grid of the quick tier: Rand of the two location-scale
+// families with a large shape grid is run on three of the nine (location, scale) pairs
+// (the map is affine), and the two-parameter laws built from two Gamma variates on a cross.
+func quickLocScale(sp uvSpec, p []float64) bool {
+	var loc, scale float64
+	switch sp.name {
+	case "StudentsT":
+		loc, scale = p[0], p[1]
+	case "AlphaStable":
+		loc, scale = p[3], p[2]
+	case "Beta", "F":
+		// two independent Gamma samplers: a cross through the product grid (every value of
+		// one parameter against two values of the other) visits every sampler branch
+		piv := func(v float64) bool { return v == 0.5 || v == 2.5 }
+		return piv(p[0]) || piv(p[1])
+	default:
+		return true
+	}
+	return loc == 0 && scale == 1 || loc == -3 && scale == 1e-2 || loc == 2 && scale == 1e2
 }
 
 func checkUVRand(t *vlib.T, sp uvSpec, p []float64, kRej int) {
